@@ -10,7 +10,7 @@ use daggy::{Dag, NodeIndex, Walker, petgraph::algo};
 use serde::{Deserialize, Serialize};
 use std::cell::RefCell;
 use std::rc::Rc;
-use veryl_parser::resource_table::PathId;
+use veryl_parser::resource_table::{PathId, StrId};
 use veryl_parser::veryl_token::Token;
 
 #[derive(Clone, Debug, Serialize, Deserialize)]
@@ -622,6 +622,31 @@ thread_local!(static TYPE_DAG: RefCell<TypeDag> = RefCell::new(TypeDag::new()));
 
 pub fn add(cand: TypeDagCandidate) {
     TYPE_DAG.with(|f| f.borrow_mut().add(cand))
+}
+
+/// Discards the pending candidates queued by a file that is being dropped:
+/// those whose path lies in the file, and those that name a symbol (own or
+/// parent) which no longer exists. Call after `symbol_table::drop` and
+/// before `scope::drop_tokens`.
+pub fn drop_candidates(path: PathId, prj: Option<StrId>) {
+    let alive = |id: &SymbolId| symbol_table::get_rc(*id).is_some();
+    TYPE_DAG.with(|f| {
+        f.borrow_mut().candidates.retain(|x| match x {
+            TypeDagCandidate::Path {
+                path: symbol_path,
+                parent,
+                ..
+            } => {
+                let token = symbol_path.range.beg;
+                let in_file = token.source == path
+                    && (prj.is_none() || crate::scope::token_project(token.id) == prj);
+                !in_file && parent.as_ref().is_none_or(|(id, _)| alive(id))
+            }
+            TypeDagCandidate::Symbol { id, parent, .. } => {
+                alive(id) && parent.as_ref().is_none_or(|(id, _)| alive(id))
+            }
+        })
+    })
 }
 
 /// Returns the current number of pending candidates. Used as a watermark
